@@ -299,6 +299,8 @@ func Reencode(r *core.Rand, b []byte, t reflect.Type, custom func(reflect.Type) 
 		raw []byte
 	}
 	var pieces []piece
+	omittedOne := false
+	isEntry := t.Kind() == reflect.Struct && t.NumField() == 2 && t.Field(0).Name == "Key" && t.Field(1).Name == "Elem" && t.Name() == ""
 	emit := func(num int, typ protowire.Type, payload []byte) []byte {
 		var out []byte
 		out = append(out, nonMinimalVarint(r, protowire.EncodeTag(protowire.Number(num), typ))...)
@@ -325,6 +327,29 @@ func Reencode(r *core.Rand, b []byte, t reflect.Type, custom func(reflect.Type) 
 		if !known {
 			pieces = append(pieces, piece{f.Num, emit(f.Num, typ, payload)})
 			continue
+		}
+		// in a map entry a key or value holding the zero value may be left out altogether
+		// (never both: an entry without any member is what this package writes as its marker for
+		// an empty map, see the known finding of C12)
+		if isEntry && !omittedOne && len(fs) == 2 && r.Chance(1, 2) {
+			zero := true
+			for _, c := range payload {
+				if c != 0 {
+					zero = false
+				}
+			}
+			if typ == protowire.BytesType {
+				// (not for message values: an absent one is nil, an empty one a pointer to an
+				// empty message - the distinction of C03's known finding)
+				zero = len(payload) == 0 && baseType(ft).Kind() != reflect.Struct
+			}
+			if zero {
+				if stats != nil {
+					stats["map-entry-zero-member-omitted"]++
+				}
+				omittedOne = true
+				continue
+			}
 		}
 		bt := baseType(ft)
 		singular := !(bt.Kind() == reflect.Map || (bt.Kind() == reflect.Slice && bt.Elem().Kind() != reflect.Uint8))
